@@ -26,8 +26,8 @@ import (
 // block size and CometBFT refuses to build the proposal block.
 func (c *Check) prepareByteBudget(rule string) {
 	p := c.p
-	outer := p.MustFn("x/goat/keeper.Keeper.PrepareProposalHandler$1")
-	pm := p.MustFn("x/goat/keeper.Keeper.PrepareProposalHandler$1$2")
+	outer := p.returnedClosure("x/goat/keeper.Keeper.PrepareProposalHandler")
+	pm := p.closureCalling(outer, `^Mempool\.Select\(`)
 	c.touch(outer)
 	c.touch(pm)
 	ro := p.R(outer)
@@ -43,15 +43,19 @@ func (c *Check) prepareByteBudget(rule string) {
 		return
 	}
 	budget := func(fn *ssa.Function, maxName string, app ssa.Instruction, elem string, also string, what string) {
-		q := regexp.QuoteMeta(maxName)
-		re := regexp.MustCompile(`^\((.*) (<=|<) ` + q + `\)$`)
+		// a guard `small <= big` (or <) in which the larger side is built from MaxTxBytes and the comparison as a
+		// whole accounts for the added tx (and the block tx): `size + need <= Max`, `need <= Max - used`, …
 		var edges []EdgeFact
 		for _, ef := range p.EdgeFacts(fn) {
-			m := re.FindStringSubmatch(ef.Fact)
-			if m == nil || !strings.Contains(m[1], elem) {
+			m := cmpRe.FindStringSubmatch(ef.Fact)
+			if m == nil || (m[2] != "<=" && m[2] != "<") || !balancedTop(m[1]) || !balancedTop(m[3]) {
 				continue
 			}
-			if also != "" && !strings.Contains(m[1], also) {
+			if !strings.Contains(m[3], maxName) || strings.Contains(m[1], maxName) {
+				continue
+			}
+			both := m[1] + " " + m[3]
+			if !strings.Contains(both, elem) || (also != "" && !strings.Contains(both, also)) {
 				continue
 			}
 			edges = append(edges, ef)
@@ -91,6 +95,13 @@ func (c *Check) prepareByteBudget(rule string) {
 				for _, alt := range splitTop(txsVal[len("φ{") : len(txsVal)-1]) {
 					if strings.HasPrefix(alt, "[") && strings.HasSuffix(alt, "]") && !strings.Contains(alt, m[1]) {
 						blockTx = alt[1 : len(alt)-1]
+					}
+					if strings.HasPrefix(alt, "make(") {
+						for _, s2 := range p.renderedStores(outer) {
+							if s2.addr == alt+"[0]" {
+								blockTx = s2.val
+							}
+						}
 					}
 				}
 			}
@@ -339,6 +350,7 @@ func (c *Check) freshVotersAreDistinct(rule string) {
 			K := r.E(key)
 			okB := false
 			var seen []string
+			var lookups []*ssa.Function
 			for _, nf := range p.necessaryFacts(f, s.Call) {
 				iff, ok := nf.Block.Instrs[len(nf.Block.Instrs)-1].(*ssa.If)
 				if !ok {
@@ -369,11 +381,15 @@ func (c *Check) freshVotersAreDistinct(rule string) {
 						if !gs.IsWrite() && gs.Field == s.Field {
 							okB = true
 							seen = append(seen, FuncKey(g)+" → "+gs.Field.Name()+"."+gs.Method)
+							lookups = append(lookups, g)
 						}
 					}
 				}
 			}
 			if okB {
+				for _, g := range lookups {
+					c.lookupCoversEveryStatus(rule, g, vt)
+				}
 				c.Held(rule, "vote-key-consulted "+cons, p.InstrPos(s.Call), "the new key "+K+" is checked against the existing voters: "+strings.Join(dedupe(seen), ", "))
 			} else {
 				c.Violated(rule, "vote-key-consulted "+cons, p.InstrPos(s.Call), "a voter record with vote key "+K+" is stored without any branch on a lookup of that key among the existing voters: one BLS key can take two seats of the relayer group (its signature counts twice; InitGenesis refuses the exported state)")
@@ -453,21 +469,31 @@ func (c *Check) requestsAppliedAtomically(rule string) {
 		guards map[string]bool
 	}
 	groups := map[string][]st{}
+	pt := p.LookupType("x/bitcoin/types", "Params")
 	for _, s := range p.renderedStores(f) {
-		if !strings.HasPrefix(s.addr, "Params.Get()#0.") {
+		fa, ok := s.in.Addr.(*ssa.FieldAddr)
+		if !ok || namedOf(fa.X.Type()) == nil || namedOf(fa.X.Type()).Obj() != pt.Obj() {
+			continue
+		}
+		if al, _ := rootAlloc(s.in.Addr); al == nil {
 			continue
 		}
 		m := elemRe.FindStringSubmatch(s.val)
 		if m == nil {
 			continue
 		}
+		// what every execution that commits this value has established about the request element
 		g := map[string]bool{}
-		for _, nf := range p.necessaryFacts(f, s.in) {
-			if strings.Contains(nf.Fact, m[1]+".") {
-				g[nf.Fact] = true
+		facts, commits := p.commitFacts(f, s.in)
+		if len(commits) == 0 {
+			continue
+		}
+		for _, fact := range facts {
+			if strings.Contains(fact, m[1]+".") {
+				g[fact] = true
 			}
 		}
-		groups[m[1]] = append(groups[m[1]], st{s.in, strings.TrimPrefix(s.addr, "Params.Get()#0."), g})
+		groups[m[1]] = append(groups[m[1]], st{s.in, fieldName(fa.X.Type(), fa.Field), g})
 	}
 	var names []string
 	for k := range groups {
@@ -639,18 +665,14 @@ func (c *Check) importAcceptsRuntimeSettings(rule string) {
 				if nt == nil || validators[nt.Obj()] == nil || len(r.wholeStores[a]) == 0 {
 					continue
 				}
-				// written back to a collection?
-				stored := false
-				for _, s := range p.StoreSites(f) {
-					if s.IsWrite() {
-						for _, arg := range s.Args {
-							if rootsAt(arg, a) {
-								stored = true
-							}
-						}
+				// a loaded record (directly or as a copy of one), not one built from scratch
+				loaded := false
+				for _, o := range p.recordOrigins(f, a) {
+					if !strings.HasPrefix(o, "new(") {
+						loaded = true
 					}
 				}
-				if !stored {
+				if !loaded {
 					continue
 				}
 				stt := nt.Underlying().(*types.Struct)
@@ -668,13 +690,21 @@ func (c *Check) importAcceptsRuntimeSettings(rule string) {
 						iv = ival{lo: 0, hiInf: true}
 					}
 					if k, ok := st.Val.(*ssa.Const); ok && k.Value != nil {
+						if len(p.commitPoints(f, st)) == 0 {
+							continue
+						}
 						if n, ok := constant.Int64Val(constant.ToInt(k.Value)); ok {
 							iv = ival{lo: n, hi: n}
 						}
 					} else {
+						// what every execution that commits this value (writes the record back) has established
 						X := r.E(st.Val)
-						for _, nf := range p.necessaryFacts(f, st) {
-							if nv, ok := refineByFact(iv, nf.Fact, X); ok {
+						facts, commits := p.commitFacts(f, st)
+						if len(commits) == 0 {
+							continue
+						}
+						for _, fact := range facts {
+							if nv, ok := refineByFact(iv, fact, X); ok {
 								iv = nv
 							}
 						}
@@ -840,4 +870,128 @@ func blockReaches(from, to *ssa.BasicBlock) bool {
 		return false
 	}
 	return walk(from)
+}
+
+
+// lookupCoversEveryStatus: in the lookup g (and the closures it hands to the store walk) that compares stored vote
+// keys with bytes.Equal, a record is compared whatever its status: for every named status value, no path through
+// the comparing function returns normally without a bytes.Equal, once the branches that contradict that status are
+// removed. (A lookup that skips, say, on-boarding voters lets their key be registered a second time.)
+func (c *Check) lookupCoversEveryStatus(rule string, g *ssa.Function, recT *types.Named) {
+	p := c.p
+	reach, _ := p.CG().Reach([]*ssa.Function{g}, nil)
+	var fns []*ssa.Function
+	for f := range reach {
+		if isProdPkgFn(f) && len(f.Blocks) > 0 {
+			fns = append(fns, f)
+		}
+	}
+	for _, f := range p.Funcs {
+		if f.Parent() != nil && reach[rootOf(f)] && !reach[f] && len(f.Blocks) > 0 {
+			fns = append(fns, f)
+		}
+	}
+	sort.Slice(fns, func(i, j int) bool { return FuncKey(fns[i]) < FuncKey(fns[j]) })
+	done := map[*ssa.Function]bool{}
+	for _, f := range fns {
+		if done[f] {
+			continue
+		}
+		done[f] = true
+		var eqs []ssa.Instruction
+		for _, ci := range callsIn(f) {
+			if cf := calleeFunc(ci.Common()); cf != nil && cf.Pkg() != nil && cf.Pkg().Path() == "bytes" && cf.Name() == "Equal" {
+				eqs = append(eqs, ci)
+			}
+		}
+		if len(eqs) == 0 {
+			continue
+		}
+		// comparisons of a status-typed value with constants
+		type cmpEdge struct {
+			b     *ssa.BasicBlock
+			konst int64
+			eqIdx int
+		}
+		var edges []cmpEdge
+		var en *Enum
+		for _, b := range f.Blocks {
+			iff, ok := b.Instrs[len(b.Instrs)-1].(*ssa.If)
+			if !ok {
+				continue
+			}
+			cond, neg := iff.Cond, false
+			for {
+				if u, ok := cond.(*ssa.UnOp); ok && u.Op == token.NOT {
+					cond, neg = u.X, !neg
+					continue
+				}
+				break
+			}
+			bo, ok := cond.(*ssa.BinOp)
+			if !ok || (bo.Op != token.EQL && bo.Op != token.NEQ) {
+				continue
+			}
+			v, k := bo.X, bo.Y
+			if _, isC := v.(*ssa.Const); isC {
+				v, k = k, v
+			}
+			kc, isC := k.(*ssa.Const)
+			nt := namedOf(v.Type())
+			if !isC || kc.Value == nil || nt == nil || nt.Obj().Pkg() == nil || !strings.HasPrefix(nt.Obj().Pkg().Path(), modPath) {
+				continue
+			}
+			if bt, isB := nt.Underlying().(*types.Basic); !isB || bt.Info()&types.IsInteger == 0 {
+				continue
+			}
+			e := p.EnumOf(nt)
+			if len(e.Values) < 2 {
+				continue
+			}
+			en = e
+			kv, _ := constant.Int64Val(constant.ToInt(kc.Value))
+			eqIdx := 0
+			if (bo.Op == token.NEQ) != neg {
+				eqIdx = 1
+			}
+			edges = append(edges, cmpEdge{b, kv, eqIdx})
+		}
+		if en == nil {
+			continue
+		}
+		c.touch(f)
+		isOKRet := func(in ssa.Instruction) bool {
+			ret, ok := in.(*ssa.Return)
+			if !ok {
+				return false
+			}
+			if n := len(ret.Results); n > 0 && types.Identical(ret.Results[n-1].Type(), errorType) && !isNilConst(ret.Results[n-1]) {
+				if _, isC := ret.Results[n-1].(*ssa.Const); isC {
+					return false
+				}
+			}
+			return true
+		}
+		bad := false
+		for _, val := range en.Values {
+			if val == 0 {
+				continue
+			}
+			avoid := map[edgeKey]bool{}
+			for _, e := range edges {
+				if e.konst == val {
+					avoid[edgeKey{b: e.b, i: 1 - e.eqIdx}] = true
+				} else {
+					avoid[edgeKey{b: e.b, i: e.eqIdx}] = true
+				}
+			}
+			if t, path := (&PathSearch{Fn: f, AvoidEdges: avoid, AvoidInstr: instrSet(eqs), IsTarget: isOKRet, KeepFailureEntries: true}).Find(); t != nil {
+				bad = true
+				c.Violated(rule, "lookup-compares-every-status "+en.Names[val]+" @ "+FuncKey(f), p.InstrPos(t), "a stored record with status "+en.Names[val]+" is passed over without being compared with the new key: its key can be registered a second time", p.describePath(path)...)
+			}
+		}
+		if !bad {
+			c.Held(rule, "lookup-compares-every-status @ "+FuncKey(f), p.Pos(f.Pos()), fmt.Sprintf("%d status tests, %d comparisons: every named status reaches a comparison", len(edges), len(eqs)))
+		}
+	}
 }
